@@ -42,7 +42,7 @@ use crate::unparser::{
 };
 use crate::utils::UNNEST_PLACEHOLDER;
 use datafusion_common::{
-    Column, DFSchema, DataFusionError, Result, ScalarValue, TableReference,
+    Column, DFSchema, DataFusionError, NullEquality, Result, ScalarValue, TableReference,
     assert_or_internal_err, internal_datafusion_err, internal_err, not_impl_err,
     tree_node::{Transformed, TransformedResult, TreeNode, TreeNodeRecursion},
     utils::combine_limit,
@@ -1369,6 +1369,7 @@ impl Unparser<'_> {
                     join.join_constraint,
                     &join.on,
                     join_filters.as_ref(),
+                    join.null_equality,
                 )?;
 
                 let right_projection: Option<Vec<ast::SelectItem>> = if !already_projected
@@ -1394,9 +1395,13 @@ impl Unparser<'_> {
                             exists_select.selection(Some(self.expr_to_sql(filter)?));
                         }
                         for (left, right) in &join.on {
-                            exists_select.selection(Some(
-                                self.expr_to_sql(&left.clone().eq(right.clone()))?,
-                            ));
+                            exists_select.selection(Some(self.expr_to_sql(
+                                &Self::join_key_condition(
+                                    left,
+                                    right,
+                                    join.null_equality,
+                                ),
+                            )?));
                         }
                         exists_select.projection(vec![ast::SelectItem::UnnamedExpr(
                             ast::Expr::value(ast::Value::Number("1".to_string(), false)),
@@ -2452,13 +2457,38 @@ impl Unparser<'_> {
         Some(ast::JoinConstraint::Using(object_names))
     }
 
+    /// The comparison of one pair of equi-join keys: `=`, or `IS NOT DISTINCT FROM`
+    /// when the join matches NULL keys with each other (e.g. the joins planned for
+    /// `INTERSECT` / `EXCEPT`, or an `IS NOT DISTINCT FROM` condition extracted as a key)
+    fn join_key_condition(
+        left: &Expr,
+        right: &Expr,
+        null_equality: NullEquality,
+    ) -> Expr {
+        let op = match null_equality {
+            NullEquality::NullEqualsNothing => Operator::Eq,
+            NullEquality::NullEqualsNull => Operator::IsNotDistinctFrom,
+        };
+        Expr::BinaryExpr(BinaryExpr::new(
+            Box::new(left.clone()),
+            op,
+            Box::new(right.clone()),
+        ))
+    }
+
     /// Convert a join constraint and associated conditions and filter to a SQL AST node
     fn join_constraint_to_sql(
         &self,
         constraint: JoinConstraint,
         conditions: &[(Expr, Expr)],
         filter: Option<&Expr>,
+        null_equality: NullEquality,
     ) -> Result<ast::JoinConstraint> {
+        // USING compares with `=`; it cannot express keys that match NULL with NULL
+        let constraint = match null_equality {
+            NullEquality::NullEqualsNothing => constraint,
+            NullEquality::NullEqualsNull => JoinConstraint::On,
+        };
         match (constraint, conditions, filter) {
             // No constraints
             (JoinConstraint::On | JoinConstraint::Using, [], None) => {
@@ -2470,7 +2500,9 @@ impl Unparser<'_> {
                     Some(using) => Ok(using),
                     // As above, this should not be reachable from parsed SQL,
                     // but a user could create this; we "downgrade" to ON.
-                    None => self.join_conditions_to_sql_on(conditions, None),
+                    None => {
+                        self.join_conditions_to_sql_on(conditions, None, null_equality)
+                    }
                 }
             }
 
@@ -2482,7 +2514,7 @@ impl Unparser<'_> {
             //    be accessible from parsed SQL, but may have been a
             //    custom-built JOIN by a user.)
             (JoinConstraint::On | JoinConstraint::Using, conditions, filter) => {
-                self.join_conditions_to_sql_on(conditions, filter)
+                self.join_conditions_to_sql_on(conditions, filter, null_equality)
             }
         }
     }
@@ -2494,14 +2526,21 @@ impl Unparser<'_> {
         &self,
         join_conditions: &[(Expr, Expr)],
         filter: Option<&Expr>,
+        null_equality: NullEquality,
     ) -> Result<ast::JoinConstraint> {
         let mut condition = None;
         // AND the join conditions together to create the overall condition
         for (left, right) in join_conditions {
-            // Parse left and right
-            let l = self.expr_to_sql(left)?;
-            let r = self.expr_to_sql(right)?;
-            let e = self.binary_op_to_sql(l, r, ast::BinaryOperator::Eq);
+            let e = match null_equality {
+                NullEquality::NullEqualsNothing => {
+                    // Parse left and right
+                    let l = self.expr_to_sql(left)?;
+                    let r = self.expr_to_sql(right)?;
+                    self.binary_op_to_sql(l, r, ast::BinaryOperator::Eq)
+                }
+                NullEquality::NullEqualsNull => self
+                    .expr_to_sql(&Self::join_key_condition(left, right, null_equality))?,
+            };
             condition = match condition {
                 Some(expr) => Some(self.and_op_to_sql(expr, e)),
                 None => Some(e),
